@@ -1098,6 +1098,40 @@ fn sweeps_big_gcd(ctx: &mut Ctx) {
         }
         sp.push((BigInt::from(&x.v * 0xFFFF_FFFBu32), BigInt::from(shape(5, "lcgA", 0) * 0xFFFF_FFFBu32), "dwguess"));
     }
+    // Euclidean remainder sequences with prescribed step shapes: from a gcd g and a quotient list
+    // (q_k .. q_1) build (a, b) backwards, (a, b) <- (q*a + b, a); the division steps of the gcd
+    // then see every combination of (divisor length, quotient length) from the alphabet - in
+    // particular long divisors with long quotients in LATER steps, whose scratch space is not the
+    // one of the initial operand lengths.
+    let qlens: Vec<usize> = ctx.pick(vec![0, 1, 34, 70], vec![0, 1, 2, 33, 34, 70, 130, 200]);
+    let glens: Vec<usize> = ctx.pick(vec![1, 3, 34, 70, 130], vec![1, 2, 3, 33, 34, 70, 130, 200, 310]);
+    let mut seqs: Vec<Vec<usize>> = vec![];
+    for &a in &qlens {
+        seqs.push(vec![a]);
+        for &b in &qlens {
+            seqs.push(vec![a, b]);
+            for &c in &qlens {
+                seqs.push(vec![a, b, c]);
+            }
+        }
+    }
+    ctx.bound("gcd_quotient_shape_sequences", seqs.len() as u64);
+    for (si, seq) in seqs.iter().enumerate() {
+        for &gl in &glens {
+            let g = shape(gl, if si % 2 == 0 { "lcgA" } else { "ones" }, ctx.seed);
+            let (mut a, mut b) = (g.clone(), BigUint::zero());
+            for (k, &ql) in seq.iter().enumerate() {
+                // length 0 = the quotient 1 (+k), otherwise a ql-word number
+                let q = if ql == 0 { BigUint::from(1u32 + k as u32) } else { shape(ql, ["lcgB", "top1p1", "ones"][(si + k) % 3], ctx.seed) };
+                let na = &q * &a + &b;
+                b = a;
+                a = na;
+            }
+            if a.bits() <= 64 * 700 {
+                sp.push((BigInt::from(a), BigInt::from(b), "quotient-shapes"));
+            }
+        }
+    }
     let nsp = sp.len() as u64;
     ctx.bound("gcd_special_pairs", nsp);
     let spr = &sp;
@@ -1108,7 +1142,7 @@ fn sweeps_big_gcd(ctx: &mut Ctx) {
         rec.hit(tag);
         rec.sample(|| format!("[{}] gcd/gcd_ext({}, {}) both orders", tag, hex(a), hex(b)));
     });
-    ctx.require_classes("big.gcd.special", &["fib", "tz", "qover", "dwguess", "dword-lehmer-guess(len>=300)", "coprime", "gcd>1"]);
+    ctx.require_classes("big.gcd.special", &["fib", "tz", "qover", "dwguess", "quotient-shapes", "dword-lehmer-guess(len>=300)", "coprime", "gcd>1"]);
 }
 
 // ---------------------------------------------------------------------------------------------
@@ -1773,7 +1807,7 @@ fn sweeps_big_log2(ctx: &mut Ctx) {
 
 
 pub fn run(ctx: &mut Ctx) {
-    ctx.rule = "primitives: sqrt/cbrt/sqrt_rem/cbrt_rem on every u8 and u16 (also zero-extended to u32/u64/u128), on r^2-1,r^2,r^2+1 (r^3..) for every root r below the stated bounds in u32/u64 and derived u128 radicands, on value grids (2^k, 2^k+-1, MAX.., Fibonacci, LCG), and on every u32 (thorough); gcd/gcd_ext on all u8 pairs in every unsigned type, boundary grid x all u16, pattern grids squared for u32/u64/usize/u128; log2_bounds/log2_est on every u8/u16/i8/i16, on f32 bit patterns (all in thorough, low-mantissa-byte in {00,FF} grid plus all |bits| < 2^16 in quick), and on u32..u128/i32..i128/usize/f64 grids. big: gcd/gcd_ext in all UBig/IBig/mixed and ownership forms on signed I3 x I3 and on shape pairs x common factors, Fibonacci neighbours, operands with trailing zero words, >=300-word operands (double-word Lehmer guess); sqrt/sqrt_rem/cbrt/cbrt_rem/nth_root on all I3 magnitudes, on r^n-1,r^n,r^n+1 for shaped r and n in {1,2,3,4,5,7,64,65,200}, on every radicand length 1..L words x patterns, IBig negatives, zero radicand, zeroth root; ilog on I3 x bases and on b^e-1,b^e,b^e+1; remove on f^k*c; log2_bounds of UBig/IBig/FBig(bases 2,10,3,16)/RBig/Relaxed on closed small universes and shaped large operands. non-trivial = operand magnitude > 1".into();
+    ctx.rule = "primitives: sqrt/cbrt/sqrt_rem/cbrt_rem on every u8 and u16 (also zero-extended to u32/u64/u128), on r^2-1,r^2,r^2+1 (r^3..) for every root r below the stated bounds in u32/u64 and derived u128 radicands, on value grids (2^k, 2^k+-1, MAX.., Fibonacci, LCG), and on every u32 (thorough); gcd/gcd_ext on all u8 pairs in every unsigned type, boundary grid x all u16, pattern grids squared for u32/u64/usize/u128; log2_bounds/log2_est on every u8/u16/i8/i16, on f32 bit patterns (all in thorough, low-mantissa-byte in {00,FF} grid plus all |bits| < 2^16 in quick), and on u32..u128/i32..i128/usize/f64 grids. big: gcd/gcd_ext in all UBig/IBig/mixed and ownership forms on signed I3 x I3 and on shape pairs x common factors, Fibonacci neighbours, operands with trailing zero words, >=300-word operands (double-word Lehmer guess), and operands built backwards from a gcd and every sequence of <= 3 quotient lengths from {1-bit, 1, 34, 70 words} (thorough: 8 lengths up to 200 words) so that every (divisor length, quotient length) combination occurs in every position of the remainder sequence; sqrt/sqrt_rem/cbrt/cbrt_rem/nth_root on all I3 magnitudes, on r^n-1,r^n,r^n+1 for shaped r and n in {1,2,3,4,5,7,64,65,200}, on every radicand length 1..L words x patterns, IBig negatives, zero radicand, zeroth root; ilog on I3 x bases and on b^e-1,b^e,b^e+1; remove on f^k*c; log2_bounds of UBig/IBig/FBig(bases 2,10,3,16)/RBig/Relaxed on closed small universes and shaped large operands. non-trivial = operand magnitude > 1".into();
     ctx.assume("num_bigint multiplication/comparison/pow and num_integer gcd are correct (cross-checked against u128 Euclid / checked u128 powers at start)");
     ctx.assume("f64 log2 of the platform libm is accurate to 2^-40 relative to max(1,|log2 x|); it only decides cases whose margin exceeds that, everything closer is decided by the BigInt enclosure (h12::log2_iv_u, self-checked at start against 96-bit constants from mpmath and against f64 log2 on 1..=2048 and on 2^k, 2^k+-1, 3*2^k+1 up to k = 5000)");
     ctx.assume("log2_bounds on NaN, and whether log2_bounds(0) returns (-inf,-inf) or panics, is not specified consistently by the docs: counted as unspecified, not judged; precision of the bounds is not judged (docs: 'not guaranteed')");
